@@ -39,7 +39,9 @@ type TypeDef struct {
 	Methods []Method `json:"methods,omitempty"` // for KIface: the interface's methods, sorted by name
 }
 type Hier struct {
-	Types []TypeDef `json:"types"`
+	Types    []TypeDef `json:"types"`
+	LitDepth int       `json:"litdepth,omitempty"` // pointer-embedded fields deeper than this stay nil in the values (0 = maxLitDepth)
+	Shape    string    `json:"shape,omitempty"`    // "" (random graph) | "deep" (tower with siblings)
 }
 
 type sig struct {
@@ -275,6 +277,91 @@ func genHier(r *vh.Rng) *Hier {
 	return h
 }
 
+
+// genDeepHier: a tower of 6..9 backbone structs, each embedding the next one (by value or by pointer) next to
+// 1..3 sibling structs (some with an embedded child of their own); int fields and methods from the small shared
+// pools, so that names are found 5..9 levels deep, shadowed by shallower ones, or ambiguous between siblings.
+// Acyclic: the values are built completely (no nil embedded pointers).
+func genDeepHier(r *vh.Rng) *Hier {
+	h := &Hier{LitDepth: 64, Shape: "deep"}
+	levels := 6 + r.Intn(4)
+	newStruct := func() int {
+		k := len(h.Types)
+		h.Types = append(h.Types, TypeDef{Name: fmt.Sprintf("T%d", k), Kind: KStruct})
+		h.Types[k].Fields = append(h.Types[k].Fields, Field{Name: h.tagName(k), Kind: FInt})
+		return k
+	}
+	embed := func(k, ref int) {
+		kind := FVal
+		if r.Chance(1, 3) {
+			kind = FPtr
+		}
+		h.Types[k].Fields = append(h.Types[k].Fields, Field{Name: h.Types[ref].Name, Kind: kind, Ref: ref})
+	}
+	decorate := func(k int, fieldProb, methProb int) {
+		td := &h.Types[k]
+		used := map[string]bool{}
+		for _, f := range td.Fields {
+			used[f.Name] = true
+		}
+		for _, nm := range fieldNames {
+			if r.Intn(100) < fieldProb && !used[nm] {
+				used[nm] = true
+				td.Fields = append(td.Fields, Field{Name: nm, Kind: FInt})
+			}
+		}
+		for _, nm := range methNames[:7] { // X Y Z M N String Error
+			if r.Intn(100) < methProb && !used[nm] {
+				used[nm] = true
+				td.Methods = append(td.Methods, Method{Name: nm, Ptr: r.Chance(2, 5), Late: r.Chance(1, 8)})
+			}
+		}
+	}
+	backbone := make([]int, levels)
+	for l := range backbone {
+		backbone[l] = newStruct()
+	}
+	for l, k := range backbone {
+		var emb []int
+		if l+1 < levels {
+			emb = append(emb, backbone[l+1])
+		}
+		nsib := 1 + r.Intn(3)
+		if l < 2 {
+			nsib = r.Intn(2) // keep the shallow levels light: the deep names must stay visible
+		}
+		for i := 0; i < nsib; i++ {
+			sib := newStruct()
+			if r.Chance(1, 3) {
+				child := newStruct()
+				decorate(child, 30, 15)
+				embed(sib, child)
+			}
+			decorate(sib, 35, 20)
+			emb = append(emb, sib)
+		}
+		// siblings in random order around the backbone
+		for i := len(emb) - 1; i > 0; i-- {
+			j := r.Intn(i + 1)
+			emb[i], emb[j] = emb[j], emb[i]
+		}
+		for _, ref := range emb {
+			embed(k, ref)
+		}
+		// the shallow backbone levels declare few names of their own (they would shadow everything below)
+		if l >= levels-3 {
+			decorate(k, 35, 20)
+		} else {
+			decorate(k, 8, 6)
+		}
+	}
+	// an interpreted interface over the method pool
+	td := TypeDef{Name: fmt.Sprintf("T%d", len(h.Types)), Kind: KIface}
+	td.Methods = append(td.Methods, Method{Name: methNames[r.Intn(5)]})
+	h.Types = append(h.Types, td)
+	return h
+}
+
 // ---------- source ----------
 func (h *Hier) typeSrc(k int) string {
 	td := h.Types[k]
@@ -369,7 +456,7 @@ func (h *Hier) lit(k int, depth int, ctr *int) string {
 		case FVal:
 			parts = append(parts, fmt.Sprintf("%s: %s", f.Name, h.lit(f.Ref, depth+1, ctr)))
 		case FPtr:
-			if depth+1 >= maxLitDepth {
+			if lim := h.LitDepth; (lim == 0 && depth+1 >= maxLitDepth) || (lim > 0 && depth+1 >= lim) {
 				continue // nil
 			}
 			if h.Types[f.Ref].Kind == KBasic {
